@@ -409,6 +409,34 @@ class TableWaveform(Waveform):
                               sample_times[indices])
         return output_array
 
+    def _unsafe_sample_shifted(self,
+                               channel: ChannelID,
+                               sample_times: np.ndarray,
+                               offset: Union[TimeType, int],
+                               output_array: Union[np.ndarray, None] = None) -> np.ndarray:
+        if offset == 0:
+            return self.unsafe_sample(channel, sample_times, output_array)
+        if output_array is None:
+            output_array = _ALLOCATION_FUNCTION(sample_times, **_ALLOCATION_FUNCTION_KWARGS)
+
+        if PULSE_TO_WAVEFORM_ERROR:
+            *entries, last = self._table
+            entries.append(TableWaveformEntry(self.duration, last.v, last.interp))
+        else:
+            entries = self._table
+
+        # the entries are located with their exact positions on the unshifted axis (see Waveform._unsafe_sample_shifted);
+        # a local time that the subtraction puts an ulp outside of the segment it belongs to is clipped back into it
+        float_offset = np.float64(offset)
+        for entry1, entry2 in pairwise(entries):
+            indices = slice(sample_times.searchsorted(float(offset + _to_time_type(entry1.t)), 'left'),
+                            sample_times.searchsorted(float(offset + _to_time_type(entry2.t)), 'right'))
+            t1, t2 = float(entry1.t), float(entry2.t)
+            output_array[indices] = \
+                entry2.interp((t1, entry1.v), (t2, entry2.v),
+                              np.clip(sample_times[indices] - float_offset, t1, t2))
+        return output_array
+
     @property
     def defined_channels(self) -> AbstractSet[ChannelID]:
         return {self._channel_id}
@@ -839,6 +867,14 @@ class MultiChannelWaveform(Waveform):
                       output_array: Union[np.ndarray, None] = None) -> np.ndarray:
         return self[channel].unsafe_sample(channel, sample_times, output_array)
 
+    def _unsafe_sample_shifted(self,
+                               channel: ChannelID,
+                               sample_times: np.ndarray,
+                               offset: Union[TimeType, int],
+                               output_array: Union[np.ndarray, None] = None) -> np.ndarray:
+        # the part that defines the channel starts where this waveform starts
+        return self[channel]._unsafe_sample_shifted(channel, sample_times, offset, output_array)
+
     def unsafe_get_subset_for_channels(self, channels: AbstractSet[ChannelID]) -> 'Waveform':
         relevant_sub_waveforms = [swf for swf in self._sub_waveforms if swf.defined_channels & channels]
         if len(relevant_sub_waveforms) == 1:
@@ -1022,6 +1058,23 @@ class TransformingWaveform(Waveform):
 
         return output_array
 
+    def _unsafe_sample_shifted(self,
+                               channel: ChannelID,
+                               sample_times: np.ndarray,
+                               offset: Union[TimeType, int],
+                               output_array: Union[np.ndarray, None] = None) -> np.ndarray:
+        if offset == 0:
+            return self.unsafe_sample(channel, sample_times, output_array)
+        # the inner waveform gets the exact offset; the transformation sees the local times (no caching: the local time
+        # array is a new object on every call)
+        inner_data = {inner_channel: self.inner_waveform._unsafe_sample_shifted(inner_channel, sample_times, offset)
+                      for inner_channel in self.transformation.get_input_channels({channel})}
+        outer_data = self.transformation(sample_times - np.float64(offset), inner_data)
+        if output_array is None:
+            return np.array(outer_data[channel], dtype=float)
+        output_array[:] = outer_data[channel]
+        return output_array
+
 
 class SubsetWaveform(Waveform):
     __slots__ = ('_inner_waveform', '_channel_subset')
@@ -1053,6 +1106,13 @@ class SubsetWaveform(Waveform):
                       sample_times: np.ndarray,
                       output_array: Union[np.ndarray, None] = None) -> np.ndarray:
         return self.inner_waveform.unsafe_sample(channel, sample_times, output_array)
+
+    def _unsafe_sample_shifted(self,
+                               channel: ChannelID,
+                               sample_times: np.ndarray,
+                               offset: Union[TimeType, int],
+                               output_array: Union[np.ndarray, None] = None) -> np.ndarray:
+        return self.inner_waveform._unsafe_sample_shifted(channel, sample_times, offset, output_array)
 
     def constant_value_dict(self) -> Optional[Mapping[ChannelID, float]]:
         d = self._inner_waveform.constant_value_dict()
@@ -1164,14 +1224,21 @@ class ArithmeticWaveform(Waveform):
                       channel: ChannelID,
                       sample_times: np.ndarray,
                       output_array: Union[np.ndarray, None] = None) -> np.ndarray:
+        return self._unsafe_sample_shifted(channel, sample_times, 0, output_array)
+
+    def _unsafe_sample_shifted(self,
+                               channel: ChannelID,
+                               sample_times: np.ndarray,
+                               offset: Union[TimeType, int],
+                               output_array: Union[np.ndarray, None] = None) -> np.ndarray:
         if channel in self._lhs.defined_channels:
-            lhs = self._lhs.unsafe_sample(channel=channel, sample_times=sample_times, output_array=output_array)
+            lhs = self._lhs._unsafe_sample_shifted(channel, sample_times, offset, output_array)
         else:
             lhs = None
 
         if channel in self._rhs.defined_channels:
-            rhs = self._rhs.unsafe_sample(channel=channel, sample_times=sample_times,
-                                          output_array=None if lhs is not None else output_array)
+            rhs = self._rhs._unsafe_sample_shifted(channel, sample_times, offset,
+                                                   None if lhs is not None else output_array)
         else:
             rhs = None
 
@@ -1247,6 +1314,14 @@ class FunctorWaveform(Waveform):
                       sample_times: np.ndarray,
                       output_array: Union[np.ndarray, None] = None) -> np.ndarray:
         inner_output = self._inner_waveform.unsafe_sample(channel, sample_times, output_array)
+        return self._functor[channel](inner_output, out=inner_output)
+
+    def _unsafe_sample_shifted(self,
+                               channel: ChannelID,
+                               sample_times: np.ndarray,
+                               offset: Union[TimeType, int],
+                               output_array: Union[np.ndarray, None] = None) -> np.ndarray:
+        inner_output = self._inner_waveform._unsafe_sample_shifted(channel, sample_times, offset, output_array)
         return self._functor[channel](inner_output, out=inner_output)
 
     def unsafe_get_subset_for_channels(self, channels: Set[ChannelID]) -> Waveform:
